@@ -26,7 +26,7 @@ func init() {
 				"consulted before the question-type gate, is keyed injectively by host, type, class and direction.",
 			NotCovered: "EQUALITY WITH THE SHA-256 SET MODEL (that Matches/Hashes return exactly the listed names' hashes) and THE PUBLIC-SUFFIX / FOUR-LABEL CUT of hashableSubdomains: " +
 				"hash and string computations outside static reach.",
-			Rules: map[string]string{"C11-R26": "cloned address records own their address bytes (shared with C12-R9): a later answer built in the pooled record does not overwrite the block-page answer held in the filter's cache", "C11-R25": "the pooled filtering context of mainmw is reset as a whole before use (shared with C01-R15): a rewritten request of an earlier, listed host is not applied to a later, unlisted one", "C11-R24": "a blocked answer for an HTTPS question is built under every blocking mode (constructor tables shared with C02-R6): a listed host is not passed as clean because the answer could not be built; R25: the pooled filtering context starts every request empty (shared with C01-R15)", "C11-R23": "the file-cache codec converts the parental switches (adult blocking, safe search) field to the field of the same name in both directions (shared with C14-R6)", "C11-R22": "rule-list keys from the index cannot name the cache file of a hash-prefix filter or another component (shared with C13-R18)", "C11-R21": "prefixesFromStr decodes the whole prefix string before it cuts a legacy eight-character prefix to four characters (a malformed tail is refused)", "C11-R20": "pre-service middleware: a TXT question of any class is handled by respondWithHashes alone, every other question by the DNS check", "C11-R18": "setSafeBrowsing and setParental install every selected safety filter under its own switch (tables shared with C02-R26)", "C11-R19": "agdnet.NormalizeDomain lower-cases every ASCII letter of the name that is hashed (shared with C10-R12)", "C11-R17": "builder: the TXT matcher is created after the filters have registered their storages", "C11-R16": "hash-prefix result cache: collision check on the stored host (shared with C12-R6)", "C11-RC": "class rules (error chains, shadowed results, character classes, crossed arguments, pool constructors, array pools, loop completeness, loop-carried buffers, replacing setters, complete clones, Grow arithmetic, pooled-buffer escape, sorted searches, fresh decode targets, per-iteration objects, whole-message copies, codec guards) over the packages this property rests on", "C11-R15": "list sources are read through readers that fail at the size limit, never through one that cuts silently (shared with C13-R7)", "C11-R14": "hash-prefix result cache stores clones and hands out clones (shared with C07-R4)", "C11-R1": "question-type gates", "C11-R2": "prefix length table", "C11-R3": "refuse, not forward", "C11-R4": "digest split agreement",
+			Rules: map[string]string{"C11-R27": "a cached block-page response is always re-targeted at the request that hits the cache (hashprefix clonedResult returns CloneForReq for a ResultModifiedResponse on every path): ID, question and flags are this client's, so the client does not discard the answer", "C11-R26": "cloned address records own their address bytes (shared with C12-R9): a later answer built in the pooled record does not overwrite the block-page answer held in the filter's cache", "C11-R25": "the pooled filtering context of mainmw is reset as a whole before use (shared with C01-R15): a rewritten request of an earlier, listed host is not applied to a later, unlisted one", "C11-R24": "a blocked answer for an HTTPS question is built under every blocking mode (constructor tables shared with C02-R6): a listed host is not passed as clean because the answer could not be built; R25: the pooled filtering context starts every request empty (shared with C01-R15)", "C11-R23": "the file-cache codec converts the parental switches (adult blocking, safe search) field to the field of the same name in both directions (shared with C14-R6)", "C11-R22": "rule-list keys from the index cannot name the cache file of a hash-prefix filter or another component (shared with C13-R18)", "C11-R21": "prefixesFromStr decodes the whole prefix string before it cuts a legacy eight-character prefix to four characters (a malformed tail is refused)", "C11-R20": "pre-service middleware: a TXT question of any class is handled by respondWithHashes alone, every other question by the DNS check", "C11-R18": "setSafeBrowsing and setParental install every selected safety filter under its own switch (tables shared with C02-R26)", "C11-R19": "agdnet.NormalizeDomain lower-cases every ASCII letter of the name that is hashed (shared with C10-R12)", "C11-R17": "builder: the TXT matcher is created after the filters have registered their storages", "C11-R16": "hash-prefix result cache: collision check on the stored host (shared with C12-R6)", "C11-RC": "class rules (error chains, shadowed results, character classes, crossed arguments, pool constructors, array pools, loop completeness, loop-carried buffers, replacing setters, complete clones, Grow arithmetic, pooled-buffer escape, sorted searches, fresh decode targets, per-iteration objects, whole-message copies, codec guards) over the packages this property rests on", "C11-R15": "list sources are read through readers that fail at the size limit, never through one that cuts silently (shared with C13-R7)", "C11-R14": "hash-prefix result cache stores clones and hands out clones (shared with C07-R4)", "C11-R1": "question-type gates", "C11-R2": "prefix length table", "C11-R3": "refuse, not forward", "C11-R4": "digest split agreement",
 				"C11-R13": "(*Storage).Matches compares the digest with every suffix of its bucket (a range loop left early only by the hit); binary searches need a sorted-data discipline (shared rule, also run over bindtodevice's index as the positive instance)",
 				"C11-R7":  "hashprefix.Filter.FilterRequest: cache first; then the type gate; then every candidate name (host and parents) is matched in order until the first hit; a hit is answered with the replacement built for this request and cached under this request's key",
 				"C11-R11": "builder wiring of the three hash-prefix filters: each filter's ID, cache file, hash storage, list URL and target field belong to the same list (two lists never share a cache file or a storage)",
@@ -37,9 +37,14 @@ func init() {
 }
 
 func runC11(c *an.Ctx) {
+	// ---- R27: cached responses are re-targeted at the asking request
+	c.Floor("C11-R27", 1)
+	c11CachedResponseForReq(c, "C11-R27")
 	// ---- R26: cloned address records own their bytes (shared with C12-R9)
 	c.Floor("C11-R26", 1)
-	c.Borrow("C11-R26", runC12, func(o an.Obligation) bool { return o.Rule == "C12-R9" && (strings.Contains(o.Key, "newANetIP") || strings.Contains(o.Key, "newAAAANetIP")) })
+	c.Borrow("C11-R26", runC12, func(o an.Obligation) bool {
+		return o.Rule == "C12-R9" && (strings.Contains(o.Key, "newANetIP") || strings.Contains(o.Key, "newAAAANetIP"))
+	})
 	// ---- R24: blocked answers for every question type (shared with C02-R6); R25: pooled filtering context (shared with C01-R15)
 	c.Floor("C11-R24", 1)
 	c.Borrow("C11-R24", runC02, func(o an.Obligation) bool {
@@ -1170,4 +1175,75 @@ func c11WholePrefixValidated(c *an.Ctx, rule string) {
 	})
 	c.Check(n > 0 && bad == "", rule, key, fn.Pos(), fmt.Sprintf("%d cuts of a prefix string, each after the whole string was decoded", n),
 		bad+": the characters that are cut off are never validated, so a malformed legacy prefix with a valid head is answered, not refused")
+}
+
+// c11CachedResponseForReq: in hashprefix.(*Filter).clonedResult, the case of the
+// type switch for *internal.ResultModifiedResponse leads only to returns of the
+// result of CloneForReq (with the request): a plain Clone keeps the ID,
+// question and flags of the client that filled the cache.
+func c11CachedResponseForReq(c *an.Ctx, rule string) {
+	k := "filter/hashprefix.(*Filter).clonedResult"
+	fn := c.Prog.Fn(k)
+	key := k + " re-targets a cached response at the request"
+	if fn == nil {
+		c.Und(rule, key, token.NoPos, "anchor not found")
+		return
+	}
+	c.Analysed(k)
+	var okBlock *ssa.BasicBlock
+	an.Instrs(fn, func(in ssa.Instruction) {
+		ta, ok := in.(*ssa.TypeAssert)
+		if !ok || !ta.CommaOk || !strings.HasSuffix(ta.AssertedType.String(), "ResultModifiedResponse") {
+			return
+		}
+		for _, r := range *ta.Referrers() {
+			if ex, isEx := r.(*ssa.Extract); isEx && ex.Index == 1 {
+				for _, r2 := range *ex.Referrers() {
+					if ifi, isIf := r2.(*ssa.If); isIf {
+						okBlock = ifi.Block().Succs[0]
+					}
+				}
+			}
+		}
+	})
+	if okBlock == nil {
+		c.Und(rule, key, fn.Pos(), "the case for ResultModifiedResponse was not found")
+		return
+	}
+	// every return reachable from the case block before another case begins
+	bad, n := "", 0
+	seen := map[*ssa.BasicBlock]bool{}
+	var walk func(b *ssa.BasicBlock)
+	walk = func(b *ssa.BasicBlock) {
+		if seen[b] {
+			return
+		}
+		seen[b] = true
+		for _, in := range b.Instrs {
+			if _, isTA := in.(*ssa.TypeAssert); isTA && b != okBlock {
+				return
+			}
+			if r, isRet := in.(*ssa.Return); isRet && len(r.Results) == 1 {
+				n++
+				v := r.Results[0]
+				if mi, ok := v.(*ssa.MakeInterface); ok {
+					v = mi.X
+				}
+				call, ok := v.(*ssa.Call)
+				if !ok || !strings.HasSuffix(an.CalleeName(call), "ResultModifiedResponse).CloneForReq") {
+					bad = "the return at " + c.Pos(r.Pos()) + " does not hand out the result of CloneForReq"
+				}
+			}
+		}
+		for _, s := range b.Succs {
+			walk(s)
+		}
+	}
+	walk(okBlock)
+	if n == 0 {
+		c.Und(rule, key, fn.Pos(), "no return found in the case for ResultModifiedResponse")
+		return
+	}
+	c.Check(bad == "", rule, key, fn.Pos(), fmt.Sprintf("%d return(s), all of CloneForReq", n),
+		bad+": a cache hit carries the message ID, question and flags of the client that filled the cache, and the asking client discards the block-page answer")
 }
